@@ -60,7 +60,13 @@ impl Case {
             .set("num_patterns", J::us(self.patterns.len()))
             .set(
                 "patterns",
-                J::arr(self.patterns.iter().take(max_patterns).map(|p| bytes_j(p))),
+                J::arr(self.patterns.iter().take(max_patterns).map(|p| {
+                    if p.len() > 160 {
+                        J::obj().set("len", J::us(p.len())).set("head", bytes_j(&p[..floor_boundary(p, 80)]))
+                    } else {
+                        bytes_j(p)
+                    }
+                })),
             )
             .set(
                 "values",
